@@ -281,6 +281,10 @@ func (route *baseRoute) delDestination(index int, extendConfig baseCfgExtender) 
 	if index >= len(conf.Dests()) {
 		return fmt.Errorf("Invalid index %d", index)
 	}
+	if _, ok := conf.(consistentHashingConfig); ok && len(conf.Dests()) <= 1 {
+		// an empty hash ring cannot place any metric (Dispatch would divide by zero)
+		return fmt.Errorf("cannot remove the last destination of consistentHashing route %q", route.key)
+	}
 	conf.Dests()[index].Shutdown()
 	newDests := append(conf.Dests()[:index], conf.Dests()[index+1:]...)
 	newConf := extendConfig(baseConfig{*conf.Matcher(), newDests})
